@@ -49,7 +49,11 @@ foo = optimize._make_constants(foo)
 
 
 OPTIMIZE = True
-from types import FunctionType, ClassType
+from types import FunctionType
+try:
+    from types import ClassType
+except ImportError:  # python3 has no old style classes
+    ClassType = type
 from opcode import opmap, HAVE_ARGUMENT, EXTENDED_ARG
 if OPTIMIZE:
     globals().update(opmap)
